@@ -31,3 +31,57 @@ pub proof fn lemma_vn_dec(s: Seq<u8>, r: Option<(u64, usize)>)
         else { let n = choose|n: int| 1 <= n <= s.len() && vn_cont(s, n - 1) && vn_val(s, n) > u64::MAX; if m < n { assert(s[m - 1] >= 128); } else { lemma_val_mono(s, n, m); } }
     }
 }
+
+// ---- encoder: digits are produced least significant first and the vector reversed at the end
+pub open spec fn pow128(n: nat) -> nat decreases n { if n == 0 { 1 } else { 128 * pow128((n - 1) as nat) } }
+/// value of the first n bytes of a LEAST-significant-first digit vector
+pub open spec fn le_val(s: Seq<u8>, n: int) -> nat decreases n { if n <= 0 { 0 } else { le_val(s, n - 1) + (s[n - 1] % 128) as nat * pow128((n - 1) as nat) } }
+/// reading the reversed vector most-significant-first gives the same number: vn_val(rev, j) is the value of the top j digits
+pub proof fn lemma_rev_val(s: Seq<u8>, j: int)
+    requires 0 <= j <= s.len()
+    ensures vn_val(s.reverse(), j) * pow128((s.len() - j) as nat) + le_val(s, s.len() - j) == le_val(s, s.len() as int)
+    decreases j
+{
+    let L = s.len() as int;
+    if j > 0 {
+        lemma_rev_val(s, j - 1);
+        assert(s.reverse()[j - 1] == s[L - j]);
+        assert(le_val(s, L - j + 1) == le_val(s, L - j) + (s[L - j] % 128) as nat * pow128((L - j) as nat));
+        assert(pow128((L - j + 1) as nat) == 128 * pow128((L - j) as nat));
+        let a = vn_val(s.reverse(), j - 1); let d = (s[L - j] % 128) as nat; let p = pow128((L - j) as nat);
+        assert(vn_val(s.reverse(), j) == a * 128 + d);
+        assert((a * 128 + d) * p == a * (128 * p) + d * p) by (nonlinear_arith);
+        assert(vn_val(s.reverse(), j - 1) * pow128((L - (j - 1)) as nat) + le_val(s, L - (j - 1)) == le_val(s, L));
+        assert(pow128((L - (j - 1)) as nat) == 128 * p);
+        assert(a * pow128((L - (j - 1)) as nat) == a * (128 * p));
+        assert(le_val(s, L - (j - 1)) == le_val(s, L - j) + d * p);
+    } else {
+        assert(vn_val(s.reverse(), 0) == 0);
+    }
+}
+pub proof fn lemma_le_prefix(s: Seq<u8>, d: u8, n: int)
+    requires 0 <= n <= s.len()
+    ensures le_val(s.push(d), n) == le_val(s, n)
+    decreases n
+{ if n > 0 { lemma_le_prefix(s, d, n - 1); assert(s.push(d)[n - 1] == s[n - 1]); } }
+/// one more digit at the top
+pub proof fn lemma_le_push(s: Seq<u8>, d: u8, num: u64, num0: u64)
+    requires num0 == le_val(s, s.len() as int) + num * pow128(s.len()), d % 128 == num % 128
+    ensures num0 == le_val(s.push(d), s.len() as int + 1) + (num / 128) * pow128(s.len() + 1)
+{
+    lemma_le_prefix(s, d, s.len() as int);
+    let p = pow128(s.len()); let q = (num / 128) as nat; let r = (num % 128) as nat;
+    assert(s.push(d)[s.len() as int] == d);
+    assert(pow128(s.len() + 1) == 128 * p);
+    assert(num == q * 128 + r);
+    assert((q * 128 + r) * p == r * p + q * (128 * p)) by (nonlinear_arith);
+}
+pub proof fn lemma_enc_bits(num: u64)
+    ensures ((num as u8) & 0x7F) < 128, ((num as u8) & 0x7F) as u64 == num % 128,
+            (((num & 0x7F) as u8) | 0x80) >= 128, ((((num & 0x7F) as u8) | 0x80) % 128) as u64 == num % 128
+{
+    assert(((num as u8) & 0x7F) < 128) by (bit_vector);
+    assert(((num as u8) & 0x7F) as u64 == num % 128) by (bit_vector);
+    assert((((num & 0x7F) as u8) | 0x80) >= 128) by (bit_vector);
+    assert(((((num & 0x7F) as u8) | 0x80) % 128) as u64 == num % 128) by (bit_vector);
+}
